@@ -139,11 +139,21 @@ class ImmuneSystem:
         # it only answers while the watcher is not anergic and the current
         # fingerprint violates the baseline.
         if recalled is not None and not tcell.is_anergic and tcell.profile.check(peptide):
-            # Known threat - fast response
+            # Known threat - fast response.  Memory never softens a critical
+            # threat: if the current fingerprint is CRITICAL by the T-cell's own
+            # table (memory being the second signal), that is what is reported.
+            threat_level, action = tcell._determine_response(
+                Signal1.NON_SELF,
+                Signal2.CROSS_VALIDATED,
+                len(tcell.profile.check(peptide)),
+                peptide,
+            )
+            if threat_level != ThreatLevel.CRITICAL:
+                threat_level, action = recalled.threat_level, recalled.effective_response
             return ImmuneResponse(
                 agent_id=agent_id,
-                threat_level=recalled.threat_level,
-                action=recalled.effective_response,
+                threat_level=threat_level,
+                action=action,
                 signal1=Signal1.NON_SELF,
                 signal2=Signal2.CROSS_VALIDATED,  # Memory serves as validation
                 violations=["recalled from immune memory"],
